@@ -156,18 +156,31 @@ def rows_from_structure(structure, decimals=3):
     return rows
 
 
+_scratch = {}
+
+
+def scratch_path(suffix):
+    """One scratch path per (worker, suffix), reused for every case: files are
+    rewritten in place within the same second, so a reader that caches by path
+    or modification time is exposed."""
+    if "dir" not in _scratch:
+        import atexit
+        import shutil
+
+        _scratch["dir"] = tempfile.mkdtemp(prefix="vmon-io-")
+        atexit.register(shutil.rmtree, _scratch["dir"], True)
+    return os.path.join(_scratch["dir"], "input" + suffix)
+
+
 def read_text(text, suffix, model=None):
     """Push text through the real residue-level reader."""
     from rnapolis import parser
 
-    with tempfile.NamedTemporaryFile("w+", suffix=suffix, delete=False) as f:
+    path = scratch_path(suffix)
+    with open(path, "w") as f:
         f.write(text)
-        path = f.name
-    try:
-        with open(path) as fh:
-            return parser.read_3d_structure(fh, model)
-    finally:
-        os.unlink(path)
+    with open(path) as fh:
+        return parser.read_3d_structure(fh, model)
 
 
 def format_twins(structure):
